@@ -3,8 +3,11 @@
 package harness
 
 import (
+	"time"
+
 	"github.com/theory/sqljson/path"
 	"github.com/theory/sqljson/path/exec"
+	"github.com/theory/sqljson/path/types"
 	"harness/nd"
 )
 
@@ -141,4 +144,31 @@ func C19_Repeat() {
 		nd.Assert(sameSeq(a, b, false), tag+"/result-depends-on-history")
 	}
 	nd.Assert(ea == eb && (eaerr == nil) == (eberr == nil), tag+"/Exists-depends-on-history")
+}
+
+var _ = reg("C19_ZoneHistory", C19_ZoneHistory)
+
+// C19_ZoneHistory: casts in one context zone after casts in another zone
+// that has the same abbreviation and a different offset (anything remembered
+// per zone name between calls would show): the second run's values are
+// checked against the time package, as in C17_CastValues.
+func C19_ZoneHistory() {
+	var za, zb *time.Location
+	if nd.Choice(3) == 2 {
+		a, err1 := time.LoadLocation("Asia/Shanghai")
+		b, err2 := time.LoadLocation("America/Chicago")
+		if err1 != nil || err2 != nil {
+			return
+		}
+		za, zb = a, b
+		if nd.Choice(2) == 1 {
+			za, zb = zb, za
+		}
+	} else {
+		offs := []int{19800, 7200, -21600, 28800}
+		i, j := nd.Choice(4), nd.Choice(4)
+		za, zb = time.FixedZone("IST", offs[i]), time.FixedZone("IST", offs[j])
+	}
+	castValues(types.ContextWithTZ(bg, za), za, "C19/zone-history/first")
+	castValues(types.ContextWithTZ(bg, zb), zb, "C19/zone-history/second")
 }
